@@ -134,3 +134,119 @@ func ruleST3(c *Ctx) {
 		}
 	}
 }
+
+// ------------------------------------------------------------------ ST4 / OU10
+
+func init() {
+	register(&Rule{ID: "ST4", Min: 1, Run: ruleST4,
+		Doc: "discovered-dir-is-a-.ergo-component: every directory the upward search hands back is filepath.Join(<dir>, \".ergo\"), or a value whose last path component was compared equal to \".ergo\" (filepath.Base(v) == \".ergo\"); a suffix or substring test accepts `site.ergo` as the store and the same project then has two stores depending on where a command is started"})
+	register(&Rule{ID: "OU10", Min: 1, Run: ruleOU10,
+		Doc: "read-path-rewrites-only-blank-titles: outside the per-event cases of replay, the read path stores into Task.Title / Task.Body only where the item's title was tested blank (the legacy migration); any wider condition rewrites text the user supplied on every read, and compact makes it permanent"})
+}
+
+func ruleST4(c *Ctx) {
+	red := c.anchor("resolveErgoDir")
+	if red == nil {
+		return
+	}
+	n := 0
+	for _, r := range c.nonFailingReturns(red) {
+		if len(r.Results) < 1 {
+			continue
+		}
+		n++
+		v := resolve(returnedValue(r, 0))
+		ok, how := false, ""
+		if cl, isCall := v.(*ssa.Call); isCall && calleeFullName(&cl.Call) == "path/filepath.Join" {
+			el := variadicElems(cl.Call.Args)
+			if len(el) >= 2 {
+				if s, isC := constString(el[len(el)-1]); isC && s == ".ergo" {
+					ok, how = true, "Join(dir, \".ergo\")"
+				}
+			}
+		}
+		if !ok {
+			vc := c.canon(v)
+			base := edgesWhere(red, func(a Atom, holds bool) bool {
+				if a.Kind != "const" || !holds || constStr(a.C) != ".ergo" {
+					return false
+				}
+				cl, _ := callOf(a.X)
+				return cl != nil && calleeFullName(&cl.Call) == "path/filepath.Base" && c.canon(cl.Call.Args[0]) == vc
+			})
+			if len(base) > 0 && mustPassEdges(red, r.Block(), base) {
+				ok, how = true, "filepath.Base(v) == \".ergo\""
+			}
+		}
+		c.check(ok, c.Name(red), fmt.Sprintf("returned-dir#%d", n), c.Pos(r.Pos()), "the returned directory is a .ergo path component: "+how,
+			"the upward search can return "+c.canon(v)+" without having established that its last component is `.ergo` (a suffix/substring test is not enough: `site.ergo` would be taken for the store)")
+	}
+	if n == 0 {
+		c.bad(c.Name(red), "returned-dir#0", c.FnPos(red), "the upward search has no successful return")
+	}
+}
+
+func ruleOU10(c *Ctx) {
+	rm := c.replay()
+	lg := c.F.Anchors["loadGraph"]
+	if rm == nil || lg == nil {
+		c.unk("ergo.replayEvents", "replay-model", "-", "replay model or loadGraph not found")
+		return
+	}
+	effect := map[*ssa.Function]bool{}
+	for _, f := range rm.EffectFns {
+		effect[f] = true
+	}
+	// the rest of the read path: replay's post-loop helpers and the loader
+	var fns []*ssa.Function
+	for _, f := range rm.Unit {
+		if !effect[f] || f == rm.Switch {
+			fns = append(fns, f)
+		}
+	}
+	fns = append(fns, c.unitOf(lg)...)
+	n := 0
+	seen := map[ssa.Instruction]bool{}
+	for _, f := range fns {
+		f := f
+		eachInstr(f, func(r instrRef) {
+			st, ok := r.In.(*ssa.Store)
+			if !ok || seen[st] {
+				return
+			}
+			fa, ok := st.Addr.(*ssa.FieldAddr)
+			if !ok || namedTypeName(fa.X.Type()) != "ergo.Task" {
+				return
+			}
+			fld := fieldName(fa.X.Type(), fa.Field)
+			if fld != "Title" && fld != "Body" {
+				return
+			}
+			if _, isLit := fa.X.(*ssa.Alloc); isLit {
+				return
+			}
+			if f == rm.Switch && rm.inCase(st) {
+				return // a per-event case: governed by DT6/DT7
+			}
+			seen[st] = true
+			n++
+			blank := edgesWhere(f, func(a Atom, holds bool) bool {
+				if a.Kind != "const" || !holds || a.C.Value == nil || constStr(a.C) != "" {
+					return false
+				}
+				x := a.X
+				if cl, _ := callOf(x); cl != nil && calleeFullName(&cl.Call) == "strings.TrimSpace" {
+					x = cl.Call.Args[0]
+				}
+				_, nme, ok := fieldLoad(x)
+				return ok && nme == "Title"
+			})
+			c.check(len(blank) > 0 && mustPassEdges(f, st.Block(), blank), c.Name(f), fmt.Sprintf("store Task.%s#%d", fld, n), c.Pos(st.Pos()),
+				"the read path rewrites "+fld+" only for items whose title is blank",
+				"the read path overwrites Task."+fld+" without having established that the item's title is blank: a title or body the user supplied is altered on every read (and for good after compact)")
+		})
+	}
+	if n == 0 {
+		c.ok("<module>", "no-read-path-rewrite", "-", "no store into Task.Title/Body on the read path outside replay's event cases")
+	}
+}
